@@ -373,23 +373,23 @@ Proof.
     - rewrite map2_len; auto. rewrite map3_len; auto; congruence.
     - intros j Hj. rewrite nth_map2, nth_map3; auto; try congruence. rewrite map3_len; auto; congruence. }
   destruct (apos RN a) as [|p0 tp] eqn:EP, (aneg RN a) as [|n0 tn] eqn:EN.
-  - exists x. cbn in E. repeat split; auto.
+  - exists x. cbn in E. split; [exact E|]. split; [exact Hc'|]. split; [exact S|]. split; [reflexivity|]. auto.
   - rewrite bind_apply_neg_only in E by (auto; apply reduced_length).
     destruct (Hfin (repeat 0 len) (reduced (ared RN a) (n0 :: tn) len)) as (y & Ey & Ly & Hy);
       [apply repeat_length|apply reduced_length|].
-    exists y. fold len in E. rewrite Ey in E. repeat split; auto.
+    exists y. fold len in E. rewrite Ey in E. split; [exact E|]. split; [exact Hc'|]. split; [exact S|]. split; [exact Ly|].
     intros j Hj. rewrite Hy by exact Hj. rewrite nth_repeat0, nth_reduced by exact Hj.
     unfold delta_fn, rcol. rewrite bind_upper_zero. ring.
   - rewrite bind_apply_pos_only in E by (auto; apply reduced_length).
     destruct (Hfin (reduced (ared RN a) (p0 :: tp) len) (repeat 0 len)) as (y & Ey & Ly & Hy);
       [apply reduced_length|apply repeat_length|].
-    exists y. fold len in E. rewrite Ey in E. repeat split; auto.
+    exists y. fold len in E. rewrite Ey in E. split; [exact E|]. split; [exact Hc'|]. split; [exact S|]. split; [exact Ly|].
     intros j Hj. rewrite Hy by exact Hj. rewrite nth_repeat0, nth_reduced by exact Hj.
     unfold delta_fn, rcol. rewrite bind_lower_zero. ring.
   - rewrite bind_apply_both in E by (auto; apply reduced_length).
     destruct (Hfin (reduced (ared RN a) (p0 :: tp) len) (reduced (ared RN a) (n0 :: tn) len)) as (y & Ey & Ly & Hy);
       [apply reduced_length|apply reduced_length|].
-    exists y. rewrite Ey in E. repeat split; auto.
+    exists y. rewrite Ey in E. split; [exact E|]. split; [exact Hc'|]. split; [exact S|]. split; [exact Ly|].
     intros j Hj. rewrite Hy by exact Hj. rewrite !nth_reduced by exact Hj.
     unfold delta_fn, rcol. ring.
 Qed.
